@@ -1,0 +1,34 @@
+//go:build verif
+
+// Contracts for the import cache (property C11: concurrent evaluation; also C16 "cycles fail fast" rests on the same
+// protocol), read by /verif/engine (govc). Comments only. Worker x-c17; vocabulary /verif/specs/91_sync.spec.
+package importcache
+
+// The map is touched only while the mutex is held (engine/effects.go `guarded`: every load/store of the field yields
+// guard.*; Lock/Unlock tracked per function; the deferred literal's Unlock is applied at every exit).
+//@ guarded pkg/importcache.importCache.cache by mutex
+
+// WAKE-UP: a goroutine that finds the in-flight marker (cache[key] == nil) sleeps in cond.Wait(). The goroutine
+// that installed the marker is the one that runs add(). Whatever the outcome of add() — value, nil value, ERROR —
+// it must wake EVERY waiter (Broadcast, not Signal) after it has resolved the marker, on every path to return:
+// otherwise the waiters sleep forever (nobody else will ever touch the key again).
+// The deferred literal getOrAdd$1 is part of every path: its contract is applied at every exit (engine/captproj.go),
+// so the postcondition is checked in the state after it ran.
+//@ func (*importCache).getOrAdd(service; key, add)
+//@   tags C11, C10
+//@   requires service != nil && service.cond != nil && service.cache != nil
+//@   requires add != nil
+//@   fnparam add contract importcache.add
+//@   assigns fresh-only
+//@   modifies woken, adds, MD|map_string_rel.Expr, ML|map_string_rel.Expr, MV|map_string_rel.Expr
+//@   returns (val, err)
+//@   ensures[C11] wake: adds > old(adds) ==> woken[service.cond] > old(woken)[service.cond]
+//@   loop 0 invariant service.cache != nil && adds == old(adds) && woken == old(woken)
+
+// the deferred clean-up: when add() failed (or panicked) `adding` is still set: remove the marker; always unlock.
+//@ func (*importCache).getOrAdd$1()
+//@   tags C11, C10
+//@   requires service != nil && service.cache != nil
+//@   assigns fresh-only
+//@   modifies MD|map_string_rel.Expr, ML|map_string_rel.Expr, MV|map_string_rel.Expr
+//@   ensures[C11] c11unit: true
